@@ -66,6 +66,10 @@ struct DBusTransportSocket
   DBusString encoded_incoming;          /**< Encoded version of current
                                          *   incoming data.
                                          */
+  unsigned int write_failed_epipe : 1;  /**< The peer will not read any more
+                                         *   (a write failed with EPIPE); we
+                                         *   keep reading until it hangs up.
+                                         */
 };
 
 static void
@@ -158,6 +162,12 @@ check_write_watch (DBusTransport *transport)
             needed = FALSE;
         }
     }
+
+  /* Nothing we queue can be written any more: do not wait for writability,
+   * which a socket in that state reports all the time.
+   */
+  if (socket_transport->write_failed_epipe)
+    needed = FALSE;
 
   _dbus_verbose ("check_write_watch(): needed = %d on connection %p watch %p fd = %" DBUS_SOCKET_FORMAT " outgoing messages exist %d\n",
                  needed, transport->connection, socket_transport->write_watch,
@@ -666,7 +676,18 @@ do_writing (DBusTransport *transport)
            * http://lists.freedesktop.org/archives/dbus/2008-March/009526.html
            */
           
-          if (_dbus_get_is_errno_eagain_or_ewouldblock (saved_errno) || _dbus_get_is_errno_epipe (saved_errno))
+          if (_dbus_get_is_errno_epipe (saved_errno))
+            {
+              /* ... but there is no point in trying to write again, and
+               * polling for writability would make us spin: the socket
+               * stays "writable" for as long as the other end keeps it
+               * half open.
+               */
+              socket_transport->write_failed_epipe = TRUE;
+              goto out;
+            }
+
+          if (_dbus_get_is_errno_eagain_or_ewouldblock (saved_errno))
             goto out;
 
           /* Since Linux commit 25888e (from 2.6.37-rc4, Nov 2010), sendmsg()
@@ -1334,6 +1355,7 @@ _dbus_transport_new_for_socket (DBusSocket        fd,
 
   socket_transport->fd = fd;
   socket_transport->message_bytes_written = 0;
+  socket_transport->write_failed_epipe = FALSE;
   
   /* These values should probably be tunable or something. */     
   socket_transport->max_bytes_read_per_iteration = 2048;
